@@ -168,7 +168,11 @@ def _run_rule(case):
         sep = target * rmax
         cs = [np.array(c0), np.array(c0) + u * sep]
         for j in range(2, nsp):
-            cs.append(np.array(c0) + u * sep * (j - 1) / (nsp - 1) + np.cross(u, [0.3, 0.5, 0.7]) * 0.0)
+            # the other members sit between the two extreme ones, OFF the line joining them (L- and T-shaped clusters): the
+            # largest centre-to-centre distance is still that of the extreme pair (checked below from the actual centres)
+            w = np.cross(u, rng.normal(size=3)); w = w / np.linalg.norm(w)
+            off = 0.0 if what == "spheres_exact" else float(rng.uniform(0.05, 0.45))
+            cs.append(np.array(c0) + u * sep * (j - 1) / (nsp - 1) + w * sep * off)
         # keep non-overlapping: spacing along the line must exceed radii sums
         ok = all(np.linalg.norm(cs[a] - cs[b]) > rs[a] + rs[b] for a in range(nsp) for b in range(a + 1, nsp))
         if not ok:
